@@ -26,13 +26,24 @@ func associatedWithTypedObject(currEpoch uint64, metaCursor *bbolt.Cursor, idObj
 	return false, oid.ID{}
 }
 
-// checks if specified object is locked in the specified container.
+// checks if specified object is locked in the specified container: some LOCK
+// object associated with it is neither expired nor removed/marked as garbage
+// itself.
 func objectLocked(currEpoch uint64, metaCursor *bbolt.Cursor, idObj oid.ID) bool {
-	locked, lockID := associatedWithTypedObject(currEpoch, metaCursor, idObj, object.TypeLock)
-	if !locked {
-		return false
+	for lockID := range iterAttrVal(metaCursor, object.AttributeAssociatedObject, idObj[:]) {
+		var cur = metaCursor.Bucket().Cursor()
+
+		if !isObjectType(cur, lockID, object.TypeLock) {
+			continue
+		}
+		if currEpoch > 0 && isExpired(cur, lockID, currEpoch) {
+			continue
+		}
+		if inGarbage(cur, lockID) == statusAvailable {
+			return true
+		}
 	}
-	return inGarbage(metaCursor, lockID) == statusAvailable
+	return false
 }
 
 // IsLocked checks is the provided object is locked by any `LOCK`. Not found
